@@ -334,3 +334,88 @@ Example C11_time_list_ex :
   getitem x ix = RArr x /\ getitem x (tuple [full; IList [1; 2]]) = RErr EValue /\
   getitem_int_array true x [1; 1] = mkv [2; 3] [3; 4; 5; 3; 4; 5] 5 1000 1 (LMany [71; 71]) (LOne 90).
 Proof. exact time_list_ex. Qed.
+
+(* ================================================================== translator tie: the index bookkeeping regenerated from the source.
+   coq/gen/PDataGen.v (gen_normalize_index, gen_getitem) is rewritten from psiaudio/pipeline.py on every run by
+   translate/pypdata2coq.py, statement by statement, over the Python value universe [pyval] and the primitives of
+   PData/TieLib.v; NumPy's own indexing of the data stays the modelled primitive np_getitem.  Proofs in PData/ProofsTie.v.
+   Vocabulary: [idx_val v] v is an index value (int, np.integer, slice, list of ints / bools, 1-D integer / boolean ndarray,
+   Ellipsis, None, or a tuple of them); [abs_x v] how the model reads it (index expression or sole integer array);
+   [emb_index ix] an index expression of the model written as a value; [lift_norm] / [lift_res] the model's result in the
+   generated functions' result type (GOk / GRaise; never GStuck = outside the translated fragment);
+   [np_plain] NumPy raised, returned a genuine scalar or an array of 1 to 3 dimensions. *)
+From PV Require Import PData.TieLib gen.PDataGen PData.ProofsTie.
+
+(* normalize_index as the source has it = the model, for EVERY index value and every ndim *)
+Theorem C11_source_normalize_index : forall v nd, idx_val v = true ->
+  gen_normalize_index v nd = lift_norm (normalize_x (abs_x v) nd).
+Proof. exact gen_normalize_index_tie. Qed.
+Print Assumptions C11_source_normalize_index.
+Theorem C11_source_normalize_index_model : forall ix nd,
+  gen_normalize_index (emb_index ix) nd = lift_norm (normalize_index true ix nd).
+Proof. exact gen_normalize_index_model. Qed.
+Print Assumptions C11_source_normalize_index_model.
+(* the hypothesis is needed: a tuple nested in a tuple is refused by the code, its reading by the model is arbitrary *)
+Theorem C11_source_normalize_index_refuted :
+  exists v nd, idx_val v = false /\ gen_normalize_index v nd <> lift_norm (normalize_x (abs_x v) nd).
+Proof. exact gen_normalize_index_tie_refuted. Qed.
+Print Assumptions C11_source_normalize_index_refuted.
+
+(* __getitem__ as the source has it (index normalisation, the s0 / fs arithmetic of the time slice, the selection of
+   channel labels and metadata entries, every raise) = the model, on every array and every index value *)
+Theorem C11_source_getitem : forall x v, idx_val v = true ->
+  np_plain (np_getitem (shape x) (dat x) (abs_items v)) (abs_items v) = true ->
+  gen_getitem x v = lift_res (getitem_x true x (abs_x v)).
+Proof. exact gen_getitem_tie. Qed.
+Print Assumptions C11_source_getitem.
+(* every annotated array the model returns is what the source returns (no hypothesis on NumPy's result) *)
+Theorem C11_source_getitem_returns : forall x v r, idx_val v = true ->
+  getitem_x true x (abs_x v) = RArr r -> gen_getitem x v = GOk (OArr r).
+Proof. exact gen_getitem_returns. Qed.
+Print Assumptions C11_source_getitem_returns.
+
+(* the C11 theorems over the definitions regenerated from the source *)
+Theorem C11_source_getitem_regular : forall x ix k per,
+  wf x -> denotes (ndim x) ix k per -> valid_on (shape x) per ->
+  exists d0 d', np_regular (dat x) per = Some d0 /\ wrap_new k d0 = Some d' /\
+                gen_getitem x (emb_index ix) = GOk (OArr (spec_result x k per d')).
+Proof. exact source_getitem_regular. Qed.
+Print Assumptions C11_source_getitem_regular.
+Theorem C11_source_time_axis_commutes : forall x ix k per r a b c,
+  wf x -> denotes (ndim x) ix k per -> valid_on (shape x) per -> time_item per = ISlice a b c ->
+  step_of c = 1 -> gen_getitem x (emb_index ix) = GOk (OArr r) ->
+  fsn r = fsn x /\ fsd r = fsd x /\ taxis r = py_slice a b (taxis x) /\
+  Forall (fun row' => exists row, In row (rows (dat x)) /\ row' = py_slice a b row) (rows (dat r)).
+Proof. exact source_time_axis_commutes. Qed.
+Print Assumptions C11_source_time_axis_commutes.
+Theorem C11_source_stride_rate : forall x ix k per r a b c,
+  wf x -> denotes (ndim x) ix k per -> valid_on (shape x) per -> time_item per = ISlice a b c ->
+  gen_getitem x (emb_index ix) = GOk (OArr r) ->
+  1 <= step_of c /\ fsn r = fsn x /\ fsd r = fsd x * step_of c /\
+  n_time r = py_slice_len (n_time x) a b (step_of c) /\
+  Forall (fun row' => exists row, In row (rows (dat x)) /\ row' = py_slice_step a b (step_of c) row) (rows (dat r)).
+Proof. exact source_stride_rate. Qed.
+Print Assumptions C11_source_stride_rate.
+Theorem C11_source_labels_metadata_follow : forall x ix k per r,
+  wf x -> denotes (ndim x) ix k per -> valid_on (shape x) per ->
+  epoch_without_channel (ndim x) k per = false ->
+  gen_getitem x (emb_index ix) = GOk (OArr r) ->
+  chan r = spec_chan k per (chan x) /\ meta r = spec_meta k per (meta x) /\
+  forall md ch row', has_row r md ch row' ->
+    exists row, has_row x md ch row /\ row' = sel_t (time_item per) row.
+Proof. exact source_labels_metadata_follow. Qed.
+Print Assumptions C11_source_labels_metadata_follow.
+Theorem C11_source_counts : forall x ix k per r,
+  wf x -> denotes (ndim x) ix k per -> valid_on (shape x) per ->
+  epoch_without_channel (ndim x) k per = false ->
+  gen_getitem x (emb_index ix) = GOk (OArr r) -> wf r.
+Proof. exact source_counts. Qed.
+Print Assumptions C11_source_counts.
+
+(* the hypotheses are satisfiable: x[np.newaxis, ..., -20:] on a 1-D array of 10 samples starting at sample 5 *)
+Example C11_source_ex :
+  let x := mk [10] 5 1000 1 (LOne 70) (LOne 90) in
+  let v := PTuple [PNone; PEllipsis; PSlice (Some (-20)) None None] in
+  idx_val v = true /\ np_plain (np_getitem (shape x) (dat x) (abs_items v)) (abs_items v) = true /\
+  res_of (gen_getitem x v) = Some (mkv [1; 10] [0; 1; 2; 3; 4; 5; 6; 7; 8; 9] 5 1000 1 (LMany [70]) (LOne 90)).
+Proof. exact source_ex. Qed.
